@@ -598,33 +598,33 @@ func watchdog(w *vgen.Writer, what string, desc any, d time.Duration, f func()) 
 }
 
 // seqCase: the deterministic fragment.
-func seqCase(w *vgen.Writer, r *vgen.Rand, tracing bool, P int, ops []op, kind string) {
-	desc := map[string]any{"fragment": "sequential", "processors": P, "runtime_trace": tracing}
+func seqCase(w *vgen.Writer, r *vgen.Rand, tracing bool, P int, ops []op, kind string, lims [3]int) {
+	desc := map[string]any{"fragment": "sequential", "processors": P, "runtime_trace": tracing, "limits": lims}
 	var names []string
 	for _, o := range ops {
 		names = append(names, o.String())
 	}
 	desc["ops"] = names
 	watchdog(w, "sequential program", desc, 20*time.Second, func() {
-		e := newEnv(P)
+		e := newEnvLim(P, lims)
 		sp, st := e.startSpan()
 		var calls []rec
 		for i, o := range ops {
 			calls = append(calls, issue(e.tr, sp, i, o, nil)...)
 		}
-		hist, tbl, rereads, hdesc, bad := finish(st, calls, unlimited)
+		hist, tbl, rereads, hdesc, bad := finish(st, calls, lims)
 		desc["history"] = hdesc
 		if bad != "" {
 			w.Violation("snapshot content that no call produced: "+bad, desc)
 		}
-		term := fmt.Sprintf("CSeq %d %v %s %s [%s] [%s]", P, tracing, opsCoq(ops), tbl.coq(), strings.Join(hist, "; "), strings.Join(rereads, "; "))
+		term := fmt.Sprintf("CSeq %d %v %s %s %s %s [%s] [%s]", P, tracing, limCoq(lims), opsCoq(ops), tbl.coq(), tbl.dropsCoq(), strings.Join(hist, "; "), strings.Join(rereads, "; "))
 		ended := false
 		for _, o := range ops {
 			if o.Kind == opEnd {
 				ended = true
 			}
 		}
-		w.Tally(fmt.Sprintf("seq:P=%d:trace=%v:ended=%v", P, tracing, ended))
+		w.Tally(fmt.Sprintf("seq:P=%d:trace=%v:ended=%v:limits=%v", P, tracing, ended, lims != unlimited))
 		w.Add(term, desc, kind, ended && P > 0)
 	})
 }
@@ -908,10 +908,16 @@ func main() {
 			withTracing(tracing, func() {
 				for _, c := range corpus {
 					for P := 0; P <= 2; P++ {
-						seqCase(w, r, tracing, P, c, "seq-corpus")
+						seqCase(w, r, tracing, P, c, "seq-corpus", unlimited)
 					}
 				}
 			})
+		}
+	}
+	if !*raceChild { // boundary limits on a program with more than one of everything
+		lp := []op{{Kind: opAttr, N: 3}, {Kind: opEvent}, {Kind: opLink}, {Kind: opAttr, N: 2}, {Kind: opRecErr}, {Kind: opLink}, {Kind: opEvent}, {Kind: opEnd}, {Kind: opAttr, N: 1}, {Kind: opEvent}}
+		for _, l := range [][3]int{{0, 0, 0}, {1, 1, 1}, {2, 2, 2}, {5, 1, 0}, {128, 2, 1}, {4, -1, 2}} {
+			seqCase(w, r, false, 2, lp, "seq-corpus", l)
 		}
 	}
 	nStormCorpus := o.Count(30000, 300000)
@@ -931,7 +937,7 @@ func main() {
 					for j := range ops {
 						ops[j] = genOp(r, 3)
 					}
-					seqCase(w, r, tracing, r.Intn(4), ops, "seq")
+					seqCase(w, r, tracing, r.Intn(4), ops, "seq", genLimits(r))
 				}
 			}
 			for i := 0; i < nRace; i++ {
